@@ -330,7 +330,22 @@ impl Src {
             }
             Ty::Arr(e, n) => {
                 let (pre, base, suffix) = self.spell(e);
-                (pre, base, format!("[{}]{}", n, suffix))
+                let id = self.next;
+                self.next += 1;
+                match self.choose(id as u64 * 31 + 29, 6) {
+                    // the array type through a typedef (chains of them for several dimensions)
+                    1 if pre.is_empty() => {
+                        self.lines.push(format!("typedef {} AT{}[{}]{};", base, id, n, suffix));
+                        (pre, format!("AT{}", id), String::new())
+                    }
+                    // the dimension as a named constant / a constant expression
+                    2 if *n < 1000 => {
+                        self.lines.push(format!("static const uint K{} = {};", id, n));
+                        (pre, base, format!("[K{}]{}", id, suffix))
+                    }
+                    3 if *n >= 2 && *n < 1000 => (pre, base, format!("[{} + 1]{}", n - 1, suffix)),
+                    _ => (pre, base, format!("[{}]{}", n, suffix)),
+                }
             }
             Ty::Struct(ms) => {
                 let mut decls = Vec::new();
@@ -2044,6 +2059,27 @@ fn prog_streams(args: &Args, rng: &mut Rng, out: &mut Out, hist: &mut Hist) {
     // P6. many: 8-24 sites over 3-6 types, the one differing structure (if any) anywhere; one struct of 10-24 members
     let n = if thorough { 4000 } else { 150 };
     for q in 0..n {
+        if q % 2 == 0 {
+            // many TYPES: 9-14 checked element types, every one agreeing but one near the end (or the very last)
+            let nt = rng.range(9, 14) as usize;
+            let odd = if rng.chance(1, 2) { nt - 1 } else { nt - 1 - rng.below(3) as usize };
+            let mut tys = Vec::new();
+            for k in 0..nt {
+                tys.push(if k == odd { if rng.chance(1, 2) { bad.clone() } else { random_struct(rng, 2, 4) } } else { agreeing_struct(rng) });
+            }
+            let plain: Vec<(String, String)> = ["sb", "rwsb", "sbns", "sbex", "sbst", "sbreg", "sbmulti"]
+                .iter()
+                .map(|k| (k.to_string(), String::new()))
+                .collect();
+            let loads: Vec<(String, String)> =
+                ["m", "pf", "mt", "hb", "lp"].iter().map(|w| ("rwbload".to_string(), w.to_string())).collect();
+            let pool = if rng.chance(1, 2) { &plain } else { &loads };
+            let ss: Vec<(&(String, String), usize)> = (0..nt).map(|k| (rng.pick(pool), k)).collect();
+            let mut p = mk(*rng.pick(&targets), rng.chance(1, 3), 0, tys, ss);
+            p.opt = rng.chance(1, 3);
+            run_prog(&p, out, hist);
+            continue;
+        }
         let nt = rng.range(3, 6) as usize;
         let odd_one = if rng.chance(3, 4) { rng.below(nt as u64) as usize } else { usize::MAX };
         let mut tys = Vec::new();
